@@ -9,7 +9,7 @@ EXTENDED = {
     'C05-2': "C05's check now includes the handler-resolution contracts of C13",
     'C08-2': "C08's check now includes _handle_reconnect",
     'C10-2': "connect() body put under contract, clause 'reconnection effort left alone'",
-    'C10-4': 'connect() body put under contract',
+    'C10-4': 'connect() body put under contract (caught in the first run; the later fix 66e1809 makes the seeded change harmless)',
     'C11-3': "C11's check now includes BaseManager.connect",
     'C12-1': "C12's check now includes is_connected",
     'C12-4': 'catch-all raise cases stopped accepting implicit exceptions',
@@ -47,6 +47,8 @@ for f in sorted(glob.glob(os.path.join(ROOT, 'seeded', '*', 'meta.json'))):
     codes = m.get('check_exit_codes', [])
     if m.get('status'):
         res = m['status']
+    elif m.get('demo_exit_with_patch') == 0:
+        res = 'seed invalidated by fix 66e1809 (its demonstration passes with the patch now); check: exit %s' % ','.join(map(str, codes))
     elif m.get('detected'):
         res = 'caught (exit 1)'
     elif codes and all(c == 2 for c in codes):
